@@ -65,7 +65,7 @@ NAMES = ["f", "g"]
 
 
 def plan(tier):
-    n = 4800 if tier == "quick" else 96000
+    n = 12000 if tier == "quick" else 120000
     return {"cases": n, "params": {}, "timeout_s": 900 if tier == "quick" else 3600,
             "min": {"probes": 50_000, "extend_super_2bases": 200, "self_identity_checked": 10_000,
                     "call_next_sites": 500, "recurse_sites": 500,
